@@ -761,6 +761,8 @@ def run(chk):
 
     from verif import fallthrough
     fallthrough.run(chk, "C17", floor=11)
+    from verif import argorder
+    argorder.run(chk, "C17", floor=85)
 
     chk.assumptions += [
         "documented precedence: parentheses/functions, ^, * /, + -, comparisons, set operators (the property statement)",
